@@ -503,4 +503,478 @@ theorem page_range_iter_yields_runs' (p : CPage) (hp : CPageOk p) :
   simp only [PAGE_BITS]
   omega
 
+/-! ### (B) the view of a concrete set and the remaining members of a `BitSetRangeIter` -/
+
+/-- `membersAll` of a `(major, page)` list -/
+def viewMembers (V : List (Nat × CPage)) : List Nat :=
+  V.flatMap (fun kp => (pageMembers kp.2.abs.bits).map (· + majorStart kp.1))
+
+theorem abs_membersAll (s : CBitSet) :
+    s.abs.membersAll = viewMembers (cview s.pageMap s.pages) := by
+  unfold BitSet.membersAll CBitSet.abs viewMembers
+  simp only [List.flatMap_map]
+
+theorem viewMembers_drop {V : List (Nat × CPage)} {i : Nat} {kp : Nat × CPage} (h : V[i]? = some kp) :
+    viewMembers (V.drop i) =
+      (pageMembers kp.2.abs.bits).map (· + majorStart kp.1) ++ viewMembers (V.drop (i + 1)) := by
+  obtain ⟨hi, rfl⟩ := List.getElem?_eq_some_iff.1 h
+  rw [List.drop_eq_getElem_cons hi]
+  simp only [viewMembers, List.flatMap_cons]
+
+theorem viewMembers_drop_nil {V : List (Nat × CPage)} {i : Nat} (h : V.length ≤ i) :
+    viewMembers (V.drop i) = [] := by
+  rw [List.drop_eq_nil_of_le h]; rfl
+
+theorem mem_viewMembers_drop {V : List (Nat × CPage)} {j x : Nat} (h : x ∈ viewMembers (V.drop j)) :
+    ∃ j' kp y, j ≤ j' ∧ V[j']? = some kp ∧ y < 512 ∧ x = y + majorStart kp.1 := by
+  unfold viewMembers at h
+  simp only [List.mem_flatMap, List.mem_map] at h
+  obtain ⟨kp, hkp, y, hy, rfl⟩ := h
+  obtain ⟨n, hn⟩ := List.getElem?_of_mem hkp
+  rw [List.getElem?_drop] at hn
+  exact ⟨j + n, kp, y, by omega, hn, (mem_pageMembers.1 hy).1, rfl⟩
+
+/-- the view is sorted by major -/
+def VSorted (V : List (Nat × CPage)) : Prop := (V.map (·.1)).Pairwise (· < ·)
+
+theorem vsorted_lt {V : List (Nat × CPage)} (hs : VSorted V) {i j : Nat} {a b : Nat × CPage}
+    (hij : i < j) (ha : V[i]? = some a) (hb : V[j]? = some b) : a.1 < b.1 := by
+  unfold VSorted at hs
+  rw [List.pairwise_iff_getElem] at hs
+  obtain ⟨hi, rfl⟩ := List.getElem?_eq_some_iff.1 ha
+  obtain ⟨hj, rfl⟩ := List.getElem?_eq_some_iff.1 hb
+  have := hs i j (by simpa using hi) (by simpa using hj) hij
+  simpa using this
+
+/-- members of later map entries lie above the end of the page of entry `i` -/
+theorem view_drop_ge {V : List (Nat × CPage)} (hs : VSorted V) {i : Nat} {kp : Nat × CPage}
+    (h : V[i]? = some kp) : ∀ x ∈ viewMembers (V.drop (i + 1)), majorStart kp.1 + 512 ≤ x := by
+  intro x hx
+  obtain ⟨j', kp', y, h1, h2, h3, rfl⟩ := mem_viewMembers_drop hx
+  have := vsorted_lt hs (show i < j' by omega) h h2
+  unfold majorStart
+  omega
+
+section SetLevel
+variable {s : CBitSet}
+
+theorem view_getElem? (s : CBitSet) (i : Nat) :
+    (cview s.pageMap s.pages)[i]? =
+      (s.pageMap[i]?).map (fun e => (e.1, s.pages.getD e.2 CPage.zero)) := by
+  unfold cview
+  rw [List.getElem?_map]
+
+theorem view_sorted (hs : CInv s) : VSorted (cview s.pageMap s.pages) := by
+  unfold VSorted cview
+  rw [List.map_map]
+  exact hs.sorted
+
+theorem view_ok (hs : CInv s) {i : Nat} {kp : Nat × CPage}
+    (h : (cview s.pageMap s.pages)[i]? = some kp) : CPageOk kp.2 := by
+  rw [view_getElem?] at h
+  cases hpm : s.pageMap[i]? with
+  | none => rw [hpm] at h; cases h
+  | some e =>
+    rw [hpm] at h
+    simp only [Option.map_some, Option.some.injEq] at h
+    subst h
+    have hlt := hs.idxLt e (List.mem_of_getElem? hpm)
+    apply hs.pagesOk
+    rw [List.getD_eq_getElem?_getD, List.getElem?_eq_getElem hlt]
+    exact List.getElem_mem hlt
+
+theorem pageIterAt_eq (hs : CInv s) (i : Nat) :
+    SRangeIter.pageIterAt s i =
+      ((cview s.pageMap s.pages)[i]?).map (fun kp => (⟨kp.2, 0⟩ : PRangeIter)) := by
+  unfold SRangeIter.pageIterAt
+  rw [view_getElem?]
+  cases hpm : s.pageMap[i]? with
+  | none => rfl
+  | some e =>
+    have hlt := hs.idxLt e (List.mem_of_getElem? hpm)
+    simp only [Option.bind_some, Option.map_some, Option.map_map]
+    rw [List.getElem?_eq_getElem hlt, List.getD_eq_getElem?_getD, List.getElem?_eq_getElem hlt]
+    rfl
+
+theorem pm_of_view {i : Nat} {kp : Nat × CPage} (h : (cview s.pageMap s.pages)[i]? = some kp) :
+    ∃ e, s.pageMap[i]? = some e ∧ e.1 = kp.1 := by
+  rw [view_getElem?] at h
+  cases hpm : s.pageMap[i]? with
+  | none => rw [hpm] at h; cases h
+  | some e =>
+    rw [hpm] at h
+    simp only [Option.map_some, Option.some.injEq] at h
+    exact ⟨e, rfl, by rw [← h]⟩
+
+theorem pm_none_of_view {i : Nat} (h : (cview s.pageMap s.pages)[i]? = none) :
+    s.pageMap[i]? = none := by
+  rw [view_getElem?] at h
+  simpa using h
+
+/-- the members a `BitSetRangeIter` has not passed yet: the rest of the current page (shifted by
+its `major_start`) followed by all members of the later map entries -/
+def remS (it : SRangeIter) : List Nat :=
+  (match it.pageIter, (cview it.set.pageMap it.set.pages)[it.pageInfoIndex]? with
+    | some pit, some kp => (remP pit).map (· + majorStart kp.1)
+    | _, _ => []) ++
+  viewMembers ((cview it.set.pageMap it.set.pages).drop (it.pageInfoIndex + 1))
+
+/-- the iterator invariant: `page_iter` is `Some` exactly while `page_info_index` is in the
+map, and then it iterates the page of that map entry -/
+def SInv (s : CBitSet) (it : SRangeIter) : Prop :=
+  it.set = s ∧
+    match it.pageIter with
+    | some pit => ∃ kp, (cview s.pageMap s.pages)[it.pageInfoIndex]? = some kp ∧ pit.page = kp.2
+    | none => (cview s.pageMap s.pages).length ≤ it.pageInfoIndex
+
+theorem remS_some {i : Nat} {pit : PRangeIter} {kp : Nat × CPage}
+    (h : (cview s.pageMap s.pages)[i]? = some kp) :
+    remS ⟨s, i, some pit⟩ = (remP pit).map (· + majorStart kp.1) ++
+      viewMembers ((cview s.pageMap s.pages).drop (i + 1)) := by
+  unfold remS
+  simp only [h]
+
+theorem remS_none (i : Nat) :
+    remS ⟨s, i, none⟩ = viewMembers ((cview s.pageMap s.pages).drop (i + 1)) := by
+  unfold remS
+  simp
+
+theorem remS_fresh {i : Nat} {kp : Nat × CPage} (h : (cview s.pageMap s.pages)[i]? = some kp) :
+    remS ⟨s, i, some ⟨kp.2, 0⟩⟩ = viewMembers ((cview s.pageMap s.pages).drop i) := by
+  rw [remS_some h, remP_zero, viewMembers_drop h]
+
+theorem mem_remP_shift_le {pit : PRangeIter} {k x : Nat} (h : x ∈ (remP pit).map (· + majorStart k)) :
+    majorStart k ≤ x ∧ x ≤ majorStart k + 511 := by
+  simp only [List.mem_map] at h
+  obtain ⟨y, hy, rfl⟩ := h
+  have := (mem_remP.1 hy).1
+  omega
+
+theorem runList_shift (a b c : Nat) : (runList a b).map (· + c) = runList (a + c) (b + c) := by
+  unfold runList
+  rw [List.range'_eq_map_range, List.range'_eq_map_range, List.map_map]
+  have : b + c + 1 - (a + c) = b + 1 - a := by omega
+  rw [this]
+  apply List.map_congr_left
+  intro x _
+  simp only [Function.comp]
+  omega
+
+theorem move_eq (hs : CInv s) (i : Nat) (o : Option PRangeIter) :
+    SRangeIter.moveToNextPage ⟨s, i, o⟩ =
+      (((cview s.pageMap s.pages)[i + 1]?).isSome,
+        ⟨s, i + 1, ((cview s.pageMap s.pages)[i + 1]?).map (fun kp => (⟨kp.2, 0⟩ : PRangeIter))⟩) := by
+  unfold SRangeIter.moveToNextPage SRangeIter.resetPageIter
+  simp only [pageIterAt_eq hs, Option.isSome_map]
+
+theorem reset_eq (hs : CInv s) (i : Nat) (o : Option PRangeIter) :
+    SRangeIter.resetPageIter ⟨s, i, o⟩ =
+      ⟨s, i, ((cview s.pageMap s.pages)[i]?).map (fun kp => (⟨kp.2, 0⟩ : PRangeIter))⟩ := by
+  unfold SRangeIter.resetPageIter
+  simp only [pageIterAt_eq hs]
+
+theorem nextRange_some {i : Nat} {pit : PRangeIter} {kp : Nat × CPage}
+    (h : (cview s.pageMap s.pages)[i]? = some kp) :
+    SRangeIter.nextRange ⟨s, i, some pit⟩ =
+      ((pit.next).1.map (fun x => (x.1 + majorStart kp.1, x.2 + majorStart kp.1)),
+        ⟨s, i, some (pit.next).2⟩) := by
+  obtain ⟨e, he, hk⟩ := pm_of_view h
+  unfold SRangeIter.nextRange
+  simp only [he, hk]
+
+theorem nextRange_out {i : Nat} {o : Option PRangeIter}
+    (h : (cview s.pageMap s.pages)[i]? = none) :
+    SRangeIter.nextRange ⟨s, i, o⟩ = (none, ⟨s, i, o⟩) := by
+  unfold SRangeIter.nextRange
+  simp only [pm_none_of_view h]
+
+/-- the page iterator of entry `i` is exhausted -/
+theorem step_none (hs : CInv s) {i : Nat} {pit pit' : PRangeIter} {kp : Nat × CPage}
+    (hv : (cview s.pageMap s.pages)[i]? = some kp) (hp : pit.page = kp.2)
+    (hn : pit.next = (none, pit')) :
+    remS ⟨s, i, some pit⟩ = viewMembers ((cview s.pageMap s.pages).drop (i + 1)) ∧
+      remS ⟨s, i, some pit'⟩ = viewMembers ((cview s.pageMap s.pages).drop (i + 1)) ∧
+      pit'.page = kp.2 ∧ remP pit' = [] := by
+  have hok : CPageOk pit.page := hp ▸ view_ok hs hv
+  obtain ⟨h1, h2, h3⟩ := pnext_none hok hn
+  rw [remS_some hv, remS_some hv, h1, h2]
+  exact ⟨rfl, rfl, h3 ▸ hp, rfl⟩
+
+/-- the page iterator of entry `i` yields a range -/
+theorem step_some (hs : CInv s) {i : Nat} {pit pit' : PRangeIter} {kp : Nat × CPage} {cs ce : Nat}
+    (hv : (cview s.pageMap s.pages)[i]? = some kp) (hp : pit.page = kp.2)
+    (hn : pit.next = (some (cs, ce), pit')) :
+    cs ≤ ce ∧ ce < 512 ∧ pit'.page = kp.2 ∧
+      remS ⟨s, i, some pit⟩ =
+        runList (cs + majorStart kp.1) (ce + majorStart kp.1) ++ remS ⟨s, i, some pit'⟩ ∧
+      ∀ x ∈ (remP pit').map (· + majorStart kp.1), ce + majorStart kp.1 + 1 < x := by
+  have hok : CPageOk pit.page := hp ▸ view_ok hs hv
+  obtain ⟨h1, h2, h3, h4, h5⟩ := pnext_some hok hn
+  refine ⟨h1, h2, by rw [h3]; exact hp, ?_, ?_⟩
+  · rw [remS_some hv, remS_some hv, h4, List.map_append, runList_shift, List.append_assoc]
+  · intro x hx
+    simp only [List.mem_map] at hx
+    obtain ⟨y, hy, rfl⟩ := hx
+    have := h5 y hy
+    omega
+
+theorem page_part_nil {pit : PRangeIter} {k e : Nat} (he : e = majorStart k + 511)
+    (h : ∀ x ∈ (remP pit).map (· + majorStart k), e + 1 < x) :
+    (remP pit).map (· + majorStart k) = [] := by
+  apply List.eq_nil_iff_forall_not_mem.2
+  intro x hx
+  have := h x hx
+  have := mem_remP_shift_le hx
+  omega
+
+/-- the loop of `BitSetRangeIter::next` entered with `current_range = Some(s0..=e)` taken from
+the page of map entry `i` -/
+theorem snextLoop_some (hs : CInv s) (s0 : Nat) :
+    ∀ (fuel i : Nat) (pit : PRangeIter) (kp : Nat × CPage) (e : Nat),
+      (cview s.pageMap s.pages).length < fuel + i →
+      (cview s.pageMap s.pages)[i]? = some kp → pit.page = kp.2 → s0 ≤ e →
+      e ≤ majorStart kp.1 + 511 →
+      (∀ x ∈ (remP pit).map (· + majorStart kp.1), e + 1 < x) →
+      ∃ e' it', SRangeIter.nextLoop fuel (some (s0, e)) ⟨s, i, some pit⟩ = (some (s0, e'), it') ∧
+        SInv s it' ∧ e ≤ e' ∧
+        runList s0 e ++ remS ⟨s, i, some pit⟩ = runList s0 e' ++ remS it' ∧
+        ∀ x ∈ remS it', e' + 1 < x := by
+  intro fuel
+  induction fuel with
+  | zero =>
+    intro i pit kp e hf hv
+    have := (List.getElem?_eq_some_iff.1 hv).1
+    omega
+  | succ f ih =>
+    intro i pit kp e hf hv hpage hse hle hgap
+    have hPB : PAGE_BITS = 512 := rfl
+    obtain ⟨pe, hpe, hk⟩ := pm_of_view hv
+    simp only [SRangeIter.nextLoop, hpe, hk]
+    by_cases hend : e = majorStart kp.1 + (PAGE_BITS - 1)
+    · rw [if_neg (fun hne => hne hend)]
+      have hend' : e = majorStart kp.1 + 511 := by omega
+      have hnil := page_part_nil hend' hgap
+      have hrem : remS ⟨s, i, some pit⟩ = viewMembers ((cview s.pageMap s.pages).drop (i + 1)) := by
+        rw [remS_some hv, hnil]; rfl
+      rw [move_eq hs]
+      simp only
+      cases hv1 : (cview s.pageMap s.pages)[i + 1]? with
+      | none =>
+        simp only [Option.map_none, nextRange_out hv1]
+        have hlen : (cview s.pageMap s.pages).length ≤ i + 1 := List.getElem?_eq_none_iff.1 hv1
+        refine ⟨e, _, rfl, ⟨rfl, hlen⟩, Nat.le_refl _, ?_, ?_⟩
+        · rw [hrem, remS_none, viewMembers_drop_nil hlen, viewMembers_drop_nil (by omega)]
+        · rw [remS_none, viewMembers_drop_nil (by omega)]
+          intro x hx; cases hx
+      | some kp1 =>
+        simp only [Option.map_some, nextRange_some hv1]
+        have hmaj := vsorted_lt (view_sorted hs) (show i < i + 1 by omega) hv hv1
+        have hge2 := view_drop_ge (view_sorted hs) hv1
+        cases hn : PRangeIter.next ⟨kp1.2, 0⟩ with
+        | mk o pit1 =>
+          cases o with
+          | none =>
+            obtain ⟨q1, q2, q3, q4⟩ := step_none hs hv1 rfl hn
+            simp only [Option.map_none]
+            refine ⟨e, _, rfl, ⟨rfl, kp1, hv1, q3⟩, Nat.le_refl _, ?_, ?_⟩
+            · rw [hrem, q2, ← remS_fresh hv1, q1]
+            · rw [q2]
+              intro x hx
+              have := hge2 x hx
+              unfold majorStart at *
+              omega
+          | some c =>
+            obtain ⟨cs, ce⟩ := c
+            obtain ⟨q1, q2, q3, q4, q5⟩ := step_some hs hv1 rfl hn
+            simp only [Option.map_some]
+            by_cases hadj : cs + majorStart kp1.1 = e + 1
+            · rw [if_pos hadj]
+              obtain ⟨e', it', r1, r2, r3, r4, r5⟩ := ih (i + 1) pit1 kp1 (ce + majorStart kp1.1)
+                (by omega) hv1 q3 (by omega) (by omega) q5
+              refine ⟨e', it', r1, r2, by omega, ?_, r5⟩
+              rw [← r4, hrem, ← remS_fresh hv1, q4, ← List.append_assoc, hadj,
+                runList_append hse (by omega)]
+            · rw [if_neg hadj, reset_eq hs]
+              simp only [hv1, Option.map_some]
+              refine ⟨e, _, rfl, ⟨rfl, kp1, hv1, rfl⟩, Nat.le_refl _, ?_, ?_⟩
+              · rw [hrem, remS_fresh hv1]
+              · rw [q4]
+                intro x hx
+                rw [List.mem_append, mem_runList, remS_some hv1, List.mem_append] at hx
+                unfold majorStart at *
+                rcases hx with hx | hx | hx
+                · omega
+                · have := q5 x hx; omega
+                · have := hge2 x hx; omega
+    · rw [if_pos hend]
+      refine ⟨e, _, rfl, ⟨rfl, kp, hv, hpage⟩, Nat.le_refl _, rfl, ?_⟩
+      intro x hx
+      rw [remS_some hv, List.mem_append] at hx
+      rcases hx with hx | hx
+      · exact hgap x hx
+      · have := view_drop_ge (view_sorted hs) hv x hx
+        omega
+
+/-- the loop of `BitSetRangeIter::next` entered with `current_range = None` (the page of map
+entry `i` is exhausted) -/
+theorem snextLoop_none (hs : CInv s) :
+    ∀ (fuel i : Nat) (pit : PRangeIter) (kp : Nat × CPage),
+      (cview s.pageMap s.pages).length < fuel + i →
+      (cview s.pageMap s.pages)[i]? = some kp →
+      ((SRangeIter.nextLoop fuel none ⟨s, i, some pit⟩).1 = none ∧
+          viewMembers ((cview s.pageMap s.pages).drop (i + 1)) = []) ∨
+        ∃ s0 e it', SRangeIter.nextLoop fuel none ⟨s, i, some pit⟩ = (some (s0, e), it') ∧
+          SInv s it' ∧ s0 ≤ e ∧
+          viewMembers ((cview s.pageMap s.pages).drop (i + 1)) = runList s0 e ++ remS it' ∧
+          ∀ x ∈ remS it', e + 1 < x := by
+  intro fuel
+  induction fuel with
+  | zero =>
+    intro i pit kp hf hv
+    have := (List.getElem?_eq_some_iff.1 hv).1
+    omega
+  | succ f ih =>
+    intro i pit kp hf hv
+    obtain ⟨pe, hpe, hk⟩ := pm_of_view hv
+    simp only [SRangeIter.nextLoop, hpe]
+    rw [move_eq hs]
+    simp only
+    cases hv1 : (cview s.pageMap s.pages)[i + 1]? with
+    | none =>
+      have hlen : (cview s.pageMap s.pages).length ≤ i + 1 := List.getElem?_eq_none_iff.1 hv1
+      left
+      simp only [Option.isSome_none, Bool.not_false, if_true]
+      exact ⟨trivial, viewMembers_drop_nil hlen⟩
+    | some kp1 =>
+      simp only [Option.isSome_some, Bool.not_true, Bool.false_eq_true, if_false, Option.map_some,
+        nextRange_some hv1]
+      cases hn : PRangeIter.next ⟨kp1.2, 0⟩ with
+      | mk o pit1 =>
+        cases o with
+        | none =>
+          obtain ⟨q1, q2, q3, q4⟩ := step_none hs hv1 rfl hn
+          simp only [Option.map_none]
+          have hsame : viewMembers ((cview s.pageMap s.pages).drop (i + 1)) =
+              viewMembers ((cview s.pageMap s.pages).drop (i + 1 + 1)) := by
+            rw [← remS_fresh hv1, q1]
+          rw [hsame]
+          exact ih (i + 1) pit1 kp1 (by omega) hv1
+        | some c =>
+          obtain ⟨cs, ce⟩ := c
+          obtain ⟨q1, q2, q3, q4, q5⟩ := step_some hs hv1 rfl hn
+          simp only [Option.map_some]
+          right
+          obtain ⟨e', it', r1, r2, r3, r4, r5⟩ := snextLoop_some hs (cs + majorStart kp1.1) f (i + 1)
+            pit1 kp1 (ce + majorStart kp1.1) (by omega) hv1 q3 (by omega) (by omega) q5
+          refine ⟨cs + majorStart kp1.1, e', it', r1, r2, by omega, ?_, r5⟩
+          rw [← remS_fresh hv1, q4, r4]
+
+/-- `BitSetRangeIter::next`: `None` exactly when no member is left, otherwise the first maximal
+run of the remaining members, leaving exactly the members above it. -/
+theorem snext_spec (hs : CInv s) {it : SRangeIter} (hi : SInv s it) :
+    ((it.next).1 = none ∧ remS it = []) ∨
+      ∃ s0 e it', it.next = (some (s0, e), it') ∧ SInv s it' ∧ s0 ≤ e ∧
+        remS it = runList s0 e ++ remS it' ∧ ∀ x ∈ remS it', e + 1 < x := by
+  obtain ⟨st, i, o⟩ := it
+  obtain ⟨hset, hinv⟩ := hi
+  simp only at hset hinv
+  subst hset
+  cases o with
+  | none =>
+    left
+    simp only at hinv
+    exact ⟨rfl, by rw [remS_none, viewMembers_drop_nil (by omega)]⟩
+  | some pit =>
+    simp only at hinv
+    obtain ⟨kp, hv, hp⟩ := hinv
+    have hlen : st.pageMap.length = (cview st.pageMap st.pages).length := by simp [cview]
+    simp only [SRangeIter.next, nextRange_some hv, hlen]
+    cases hn : pit.next with
+    | mk o pit1 =>
+      cases o with
+      | none =>
+        obtain ⟨q1, q2, q3, q4⟩ := step_none hs hv hp hn
+        simp only [Option.map_none]
+        rw [q1]
+        exact snextLoop_none hs _ i pit1 kp (by omega) hv
+      | some c =>
+        obtain ⟨cs, ce⟩ := c
+        obtain ⟨q1, q2, q3, q4, q5⟩ := step_some hs hv hp hn
+        simp only [Option.map_some]
+        right
+        obtain ⟨e', it', r1, r2, r3, r4, r5⟩ := snextLoop_some hs (cs + majorStart kp.1)
+          ((cview st.pageMap st.pages).length + 1) i
+          pit1 kp (ce + majorStart kp.1) (by omega) hv q3 (by omega) (by omega) q5
+        refine ⟨cs + majorStart kp.1, e', it', r1, r2, by omega, ?_, r5⟩
+        rw [q4, r4]
+
+theorem scollect_spec (hs : CInv s) : ∀ (fuel : Nat) (it : SRangeIter), SInv s it →
+    (remS it).length < fuel → SRangeIter.collect fuel it = runsOfList (remS it) := by
+  intro fuel
+  induction fuel with
+  | zero => intro it _ h; omega
+  | succ f ih =>
+    intro it hi hlen
+    unfold SRangeIter.collect
+    rcases snext_spec hs hi with ⟨h1, h2⟩ | ⟨s0, e, it', h1, h2, h3, h4, h5⟩
+    · cases hn : it.next with
+      | mk o it' =>
+        rw [hn] at h1
+        simp only at h1
+        subst h1
+        simp only
+        rw [h2]; rfl
+    · rw [h1]
+      simp only
+      have hl : (remS it).length = (e + 1 - s0) + (remS it').length := by
+        rw [h4, List.length_append, runList_length h3]
+      rw [ih it' h2 (by omega), h4, runsOfList_runList_append h3 _ h5]
+
+theorem sinv_new (hs : CInv s) : SInv s (SRangeIter.new s) := by
+  unfold SRangeIter.new
+  rw [pageIterAt_eq hs]
+  refine ⟨rfl, ?_⟩
+  cases hv : (cview s.pageMap s.pages)[0]? with
+  | none => simpa using hv
+  | some kp => exact ⟨kp, rfl, rfl⟩
+
+theorem remS_new (hs : CInv s) : remS (SRangeIter.new s) = viewMembers (cview s.pageMap s.pages) := by
+  unfold SRangeIter.new
+  rw [pageIterAt_eq hs]
+  cases hv : (cview s.pageMap s.pages)[0]? with
+  | none =>
+    have hlen : (cview s.pageMap s.pages).length ≤ 0 := List.getElem?_eq_none_iff.1 hv
+    simp only [Option.map_none]
+    rw [remS_none, viewMembers_drop_nil (by omega)]
+    have : cview s.pageMap s.pages = [] := List.eq_nil_of_length_eq_zero (by omega)
+    rw [this]; rfl
+  | some kp =>
+    simp only [Option.map_some]
+    rw [remS_fresh hv]; rfl
+
+theorem viewMembers_length_le (V : List (Nat × CPage)) : (viewMembers V).length ≤ 512 * V.length := by
+  induction V with
+  | nil => simp [viewMembers]
+  | cons kp V ih =>
+    have h1 : viewMembers (kp :: V) =
+        (pageMembers kp.2.abs.bits).map (· + majorStart kp.1) ++ viewMembers V := by
+      simp [viewMembers]
+    have := popCount_le kp.2.abs.bits
+    unfold popCount at this
+    rw [h1, List.length_append, List.length_map, List.length_cons]
+    omega
+
+/-- (B) `BitSetRangeIter`, run to exhaustion, yields exactly the abstract ranges of the set. -/
+theorem range_iter_yields_abstract_ranges' (s : CBitSet) (hs : CInv s) :
+    s.iterRanges = s.abs.ranges := by
+  unfold CBitSet.iterRanges BitSet.ranges
+  rw [abs_membersAll, scollect_spec hs _ _ (sinv_new hs), remS_new hs]
+  rw [remS_new hs]
+  have := viewMembers_length_le (cview s.pageMap s.pages)
+  have hlen : s.pageMap.length = (cview s.pageMap s.pages).length := by simp [cview]
+  simp only [PAGE_BITS, hlen]
+  omega
+
+end SetLevel
+
 end FontVerif.IntSet
